@@ -1379,6 +1379,11 @@ impl Gen {
         let mut w = World::new();
         w.start(label, &start);
         let mut steps = vec![];
+        if migrate && self.rng.pct(30) {
+            // the not-yet-migrated book is in use for a few requests first
+            let n = 1 + self.rng.below(3) as usize;
+            self.continue_walk(&mut w, &mut steps, n);
+        }
         if migrate {
             let m = self.mig_msg();
             for _ in 0..2 {
